@@ -80,8 +80,8 @@ def prepared_unit(scratch):
     return d, k
 
 
-def run_cbmc(N, witness=False, trace=False, timeout=3600, unit_dir=None):
-    cmd = ['cbmc', '--cpp11', '-DSWIG', '-DVERIF_N=%d' % N, '-DVERIF_STR_CAP=%d' % N, '-I', os.path.join(CB, 'stub')] + (['-I', unit_dir] if unit_dir else []) + ['-I', os.path.join(build.REPO, 'src'), '-I', build.REPO,
+def run_cbmc(N, witness=False, trace=False, timeout=3600, unit_dir=None, concrete=None):
+    cmd = ['cbmc', '--cpp11', '-DSWIG', '-DVERIF_N=%d' % N, '-DVERIF_STR_CAP=%d' % N] + (['-DVERIF_CONCRETE="%s"' % concrete] if concrete is not None else []) + [ '-I', os.path.join(CB, 'stub')] + (['-I', unit_dir] if unit_dir else []) + ['-I', os.path.join(build.REPO, 'src'), '-I', build.REPO,
            os.path.join(CB, 'harness.cpp'), '--unwind', str(N + 4), '--unwinding-assertions', '--drop-unused-functions']
     if witness:
         cmd.insert(2, '-DWITNESS')
@@ -171,6 +171,36 @@ def body(chk):
                 ob.status = 'inconclusive'
                 chk.inconclusive.append(ob)
                 print('INCONCLUSIVE obligation=%s CBMC counterexample %r did not reproduce on the real library (got %r)' % (ob.name, s_in, got))
+    # ---- part 1b (thorough): CONCRETE inputs far beyond the symbolic length bound -- a name as the Fortran interface passes it (blank-padded
+    #      character(len=80)) and a 66-character decorated name: CBMC executes the verbatim unit on them (constant propagation) and the
+    #      result must be the reference normal form.  Length-dependent behaviour above the bound is otherwise outside the claim.
+    if chk.tier != 'quick':
+        longs = ['Euler-1D'.ljust(80), ('-' * 30) + 'Heat Eq_1D-steady const' + (' ' * 13)]
+        chk.bounds['concrete_long_inputs'] = [len(x) for x in longs]
+        for S_ in longs:
+            lout, ldt, lcmd = run_cbmc(len(S_), unit_dir=unit_dir, concrete=S_, timeout=1500)
+            lv = 'unsat' if 'VERIFICATION SUCCESSFUL' in lout else ('sat' if 'VERIFICATION FAILED' in lout else ('timeout' if lout == 'TIMEOUT' else 'error'))
+            lob = framework.Ob('masa_map:cbmc:concrete-input-of-length-%d' % len(S_), 'prop', None, 'unsat', dict(obligation='masa_map(%r) == reference normal form' % S_, checker=lcmd), None,
+                               'masa_map:long-input', ['MASA::masa_map'])
+            lob.result = dict(verdict=lv, time=ldt, output=lout[-1500:] if lv != 'unsat' else '', solver='cbmc 6.11 (minisat)', hash='cbmc-long-%d' % len(S_))
+            chk.obs.append(lob)
+            if lv == 'unsat':
+                lob.status = 'discharged'
+            elif lv == 'sat':
+                import replay as rp
+                src = ('#include <masa_internal.h>\n#include <cstdio>\n#include <string>\nint main(){ std::string s("%s"); int rc = MASA::masa_map(&s); printf("R out %%d [%%s]\\n", rc, s.c_str()); return 0;}\n' % S_)
+                rc, o, e = chk.lib().run(src)
+                exp = reference(S_.encode()).decode()
+                if ('[%s]' % exp) not in o:
+                    path = chk.save_replay(lob, dict(input=S_, stdout=o[-500:], reference=exp), src)
+                    chk.report_violation('masa_map:long-input', path, 'masa_map(%r): library output %r, reference normal form %r' % (S_, o.strip()[-120:], exp), lob)
+                else:
+                    lob.status = 'inconclusive'
+                    chk.inconclusive.append(lob)
+                    print('INCONCLUSIVE obligation=%s CBMC failure did not reproduce on the real library' % lob.name)
+            else:
+                lob.status = 'undecided'
+                chk.undecided.append(lob)
     # witness twin: the end of the harness must be reachable
     wout, wdt, wcmd = run_cbmc(min(N, 4), witness=True, unit_dir=unit_dir)
     wob = framework.Ob('masa_map:cbmc:WITNESS', 'witness', None, 'sat', None, None, None)
